@@ -1,4 +1,5 @@
 import BaoModel.Ops3
+import BaoModel.Fault
 import BaoModel.Serde
 import BaoModel.Script
 
@@ -238,6 +239,48 @@ def expectFault (name : String) (e : Ev) (kind : String) : String :=
     | none => io
   else io
 
+/-- terminal of the fault-aware model twin of an operation (outboard creation, copy, validators), as the
+harness prints it; `none` for operations that have no twin in `BaoModel/Fault.lean` -/
+def faultTerminal (name : String) (d : List UInt8) (bs : Nat) (kind : StoreKind) (ranges : Ranges) :
+    Option (Option Fault → String) :=
+  let tree : Tree := ⟨d.length, bs⟩
+  let fl := if name.endsWith "-fsm" then Flavour.fsm else Flavour.sync
+  let resStr {α : Type} (r : Res IoErr α) : String :=
+    match r with | .ok _ => "Ok" | .err e => ioErrStr e | .panic => "panic"
+  let valStr (r : ValRun) : String :=
+    match r.terminal with | .ok => "Ok" | .err e => ioErrStr e | .panic => "panic"
+  if name.startsWith "ob-" then
+    some fun f => resStr (outboardF hf d tree ⟨kind, zeros32, tree, zerosN tree.outboardSize⟩ f).2.res
+  else if name.startsWith "obpo" then
+    some fun f => resStr (outboardPostOrderF hf d tree f).2.res
+  else if name.startsWith "copy" then
+    let src := intactStore kind d bs
+    let toKind : StoreKind := if kind == .preMem || kind == .preIo then .postMem else .preMem
+    some fun f => resStr (copyF hf fl src ⟨toKind, src.root, tree, zerosN tree.outboardSize⟩ f).2.toRes
+  else if name.startsWith "valid-" then
+    some fun f => valStr (validRangesF hf fl (intactStore kind d bs) d ranges f).2
+  else if name.startsWith "validob" then
+    some fun f => valStr (validOutboardRangesF hf fl (intactStore kind d bs) ranges f).2
+  else none
+
+/-- the io calls of the fault-free twin, as `(object, label)`; must agree with the skeleton (minus "obio") -/
+def faultCalls (name : String) (d : List UInt8) (bs : Nat) (kind : StoreKind) (ranges : Ranges) :
+    Option (List (String × String)) :=
+  let tree : Tree := ⟨d.length, bs⟩
+  let fl := if name.endsWith "-fsm" then Flavour.fsm else Flavour.sync
+  if name.startsWith "ob-" then
+    some (FEv.calls (outboardF hf d tree ⟨kind, zeros32, tree, zerosN tree.outboardSize⟩ none).1)
+  else if name.startsWith "obpo" then some (FEv.calls (outboardPostOrderF hf d tree none).1)
+  else if name.startsWith "copy" then
+    let src := intactStore kind d bs
+    let toKind : StoreKind := if kind == .preMem || kind == .preIo then .postMem else .preMem
+    some (FEv.calls (copyF hf fl src ⟨toKind, src.root, tree, zerosN tree.outboardSize⟩ none).1)
+  else if name.startsWith "valid-" then
+    some (FEv.calls (validRangesF hf fl (intactStore kind d bs) d ranges none).1)
+  else if name.startsWith "validob" then
+    some (FEv.calls (validOutboardRangesF hf fl (intactStore kind d bs) ranges none).1)
+  else none
+
 /-- `faults opspec stride`: the whole expected report is computed from the call skeleton -/
 def opFaults (args : List String) (impl : String) : Verdict :=
   match args with
@@ -267,9 +310,25 @@ def opFaults (args : List String) (impl : String) : Verdict :=
                       | "Other" => IoKind.other | "UnexpectedEof" => IoKind.unexpectedEof
                       | "ConnectionReset" => IoKind.connectionReset | _ => IoKind.writeZero
                     encEndStr (encodeRangesF hf fl validate d (intactStore kind d bs) ranges (some ⟨eo, k, kk⟩)).terminal
-                  else expectFault name e kd
+                  else
+                    -- outboard creation, copy and the validators have fault-aware model functions too
+                    -- (BaoModel/Fault.lean, theorems in Props/C10Ops.lean); the backing file of an io
+                    -- outboard ("obio") is below their granularity and keeps the skeleton rule
+                    let kk := match kd with
+                      | "Other" => IoKind.other | "UnexpectedEof" => IoKind.unexpectedEof
+                      | "ConnectionReset" => IoKind.connectionReset | _ => IoKind.writeZero
+                    let fo : Option FObj := match o with
+                      | "data" => some .data | "ob" => some .ob | "w" => some .w
+                      | "from" => some .src | "to" => some .dst | _ => none
+                    match fo, faultTerminal name d bs kind ranges with
+                    | some fo, some f => f (some ⟨fo, k, kk⟩)
+                    | _, _ => expectFault name e kd
                 s!"{kd}={res}/a0/p1")
-          let m := " # ".intercalate (head :: lines)
+          -- the twin's own call log must be the skeleton (two independent descriptions of "the k-th call")
+          let twinOk : Bool := match faultCalls name d bs kind ranges with
+            | none => true
+            | some calls => calls == ((tr.filter (·.obj != "obio")).map fun e => (e.obj, e.label))
+          let m := if twinOk then " # ".intercalate (head :: lines) else "fault-twin and call skeleton disagree"
           -- spec verdict on the implementation's report, clause by clause (independent of the skeleton)
           let parts := impl.splitOn " # "
           let sf : Option String :=
